@@ -208,6 +208,9 @@ var specC14 = &worldSpec{
 		if v := w.checkLoadEach(); v != nil {
 			return v
 		}
+		if v := w.checkReplayFirstVersionOnNewHandle(); v != nil {
+			return v
+		}
 		return w.checkUnloadedHandle()
 	},
 }
